@@ -21,9 +21,9 @@ def run(P: Program, rep: Report):
     # the function and the module-level helpers it (transitively) calls
     from ..model import reachable
     edges, _st = P.call_graph()
-    fam = [f for f in reachable(edges, [fi]) if f.module is fi.module and f.cls is None]
+    fam = [f for f in reachable(edges, [fi]) if f.module is fi.module]      # module-level helpers and methods of private helper classes alike
     raises = [(f, n) for f in fam for n in own_nodes(f.node) if isinstance(n, ast.Raise)]
-    rep.require_count("C13.R1", "raise sites in parse_single_name_into_parts and its helpers", len(raises), 4)
+    rep.require_count("C13.R1", "raise sites in parse_single_name_into_parts and its helpers", len(raises), 1)
     for f, r in raises:
         nm = ast.unparse(r.exc.func) if isinstance(r.exc, ast.Call) else ast.unparse(r.exc) if r.exc else "re-raise"
         rep.check(nm == "InvalidNameError", "C13.R1", f"raise:{norm_stmt(r)[:60]}", f"{f.module.relpath}:{r.lineno}", f"raises {nm}, not InvalidNameError")
@@ -40,6 +40,11 @@ def run(P: Program, rep: Report):
             return ("raise", r.cls_name())
         ok = isinstance(out, AObj) and out.cls.name == "MiddlewareErrorBlock" and it.get_attr(out, "ignore_error_block") is e \
             and isinstance(it.get_attr(out, "error"), AObj) and it.get_attr(out, "error").cls.name == "InvalidNameError"
+        if ok:
+            # the retained entry still holds the names of the field that failed as they were
+            av = it.get_attr(it.iterate(it.get_attr(e, "fields"))[1], "value")
+            if not (isinstance(av, AList) and av.items == ["Good Name", "bad } name"]):
+                return ("wrong", f"the retained entry's author value became {av!r}, it was ['Good Name', 'bad }} name']")
         return ("ok" if ok else "wrong", repr(out))
     for label, cargs, ckw in (("default", (), None), ("positional-False", (False,), None), ("positional-True", (True,), None),
                               ("keyword-inplace-False", (), {"allow_inplace_modification": False}),
@@ -48,6 +53,26 @@ def run(P: Program, rep: Report):
             rep.check(v[0] == "ok", "C13.R1", f"middleware-containment:{label}", spl.loc,
                       f"SplitNameParts({label}) on an invalid name: {v}; expected a MiddlewareErrorBlock holding the entry and the InvalidNameError")
     common.exception_copy_safety(P, rep, "C13.R1")
+
+    def two_fields(ctx):
+        """A valid author list and an invalid editor list: the error block retains the entry, the editor names as they were."""
+        it = driver_interp(P, ctx, "middlewares.names")
+        mk = lambda c, *a, **k: new_obj(it, P, "model", c, *a, **k)
+        e = mk("Entry", entry_type="a", key="k", start_line=0, raw="r", fields=AList([
+            mk("Field", key="author", value=AList(["Ann Author", "Bob Builder"]), start_line=1),
+            mk("Field", key="editor", value=AList(["Ed Itor", "Lamport, Leslie,"]), start_line=2)]))
+        try:
+            out = call(it, it.construct(spl, [], {}), "transform_entry", e, Unknown("lib"))
+        except Raised as r:
+            return ("raise", r.cls_name())
+        if not (isinstance(out, AObj) and out.cls.name == "MiddlewareErrorBlock" and it.get_attr(out, "ignore_error_block") is e):
+            return ("wrong", repr(out))
+        ev = it.get_attr(it.iterate(it.get_attr(e, "fields"))[1], "value")
+        return ("ok", list(ev.items) if isinstance(ev, AList) else repr(ev))
+    for ctx, v in explore(two_fields, 10):
+        rep.check(v == ("ok", ["Ed Itor", "Lamport, Leslie,"]), "C13.R1", "middleware-containment:second-name-field-invalid", spl.loc,
+                  f"SplitNameParts on an entry whose editor list holds an invalid name: {v!r}; expected an error block retaining the entry with "
+                  f"the editor names as they were")
 
     def on_invalid(it, mw):
         mk = lambda c, *a, **k: new_obj(it, P, "model", c, *a, **k)
@@ -69,19 +94,34 @@ def run(P: Program, rep: Report):
                        "jr / first are exactly the words of their sections in order; invalid names raise exactly when the "
                        "reference says so; every completed word is classified lower-case exactly when BibTeX's von_token_found "
                        "does (letters in ordinary braces do not count, a top-level {\\... special character decides by its first letter)")
-    ex = nameparts.TokExplorer(P, rep.tier).explore()
-    rep.count("tokeniser_states", len(ex.visited))
-    rep.count("tokeniser_paths", ex.paths)
-    rep.count("tokeniser_completed_runs", ex.completed)
-    rep.count("tokeniser_invalid_name_runs", ex.invalid_runs)
-    rep.extra["states"] = len(ex.visited)
-    rep.extra["transitions"] = ex.paths
-    if ex.unsupported:
-        raise AnalysisError(f"C13.R2: analyser cannot follow parse_single_name_into_parts: {ex.unsupported[0]}")
-    if not ex.mismatches and getattr(ex, "compared_total", 0) < 20:
-        raise AnalysisError("C13.R2: the tokeniser state (locals `sections` / `word`) was never observed: anchor vanished")
-    if not ex.mismatches and (len(ex.visited) < 60 or ex.completed < 40):
-        raise AnalysisError(f"C13.R2: tokeniser product collapsed ({len(ex.visited)} states, {ex.completed} runs)")
+    # the product needs the function to read the name as a stream and to keep words / sections in recognisable lists; where it cannot
+    # be set up (a different formulation of the scanner) the directed table R5 decides alone and the product is reported as not decided
+    product_problem = None
+    try:
+        ex = nameparts.TokExplorer(P, rep.tier).explore()
+        rep.count("tokeniser_states", len(ex.visited))
+        rep.count("tokeniser_paths", ex.paths)
+        rep.count("tokeniser_completed_runs", ex.completed)
+        rep.count("tokeniser_invalid_name_runs", ex.invalid_runs)
+        rep.extra["states"] = len(ex.visited)
+        rep.extra["transitions"] = ex.paths
+        if ex.unsupported:
+            product_problem = f"the analyser cannot follow parse_single_name_into_parts as a stream scanner: {ex.unsupported[0]}"
+        elif not ex.mismatches and getattr(ex, "compared_total", 0) < 20:
+            product_problem = "the tokeniser state (the lists of sections and of the current word) was never observed"
+        elif not ex.mismatches and (len(ex.visited) < 60 or ex.completed < 40):
+            product_problem = f"the tokeniser product collapsed ({len(ex.visited)} states, {ex.completed} runs)"
+    except AnalysisError as e_:
+        product_problem = str(e_)
+        ex = None
+    if product_problem:
+        rep.not_decided.append(f"C13.R2 (product with the reference tokeniser): {product_problem}; the directed table R5 decides")
+        rep.extra["exhaustive"] = False
+        rep.ok("C13.R2", "tokeniser:product-not-applicable", fi.loc, product_problem, nontrivial=False)
+
+        class _NoEx:
+            mismatches, samples, visited, paths, invalid_runs = [], [], {}, 0, 0
+        ex = _NoEx()
     seen = set()
     for m in ex.mismatches:
         k = m["cls"]
@@ -89,10 +129,29 @@ def run(P: Program, rep: Report):
             continue
         seen.add(k)
         rep.fail("C13.R2", f"tokeniser:{m['cls']}", fi.loc, f"name {m['input']!r}: {m['message']}", {"input": m["input"]})
-    if not ex.mismatches:
+    if not ex.mismatches and not product_problem:
         rep.ok("C13.R2", f"tokeniser:{len(ex.visited)}-states", fi.loc, f"{ex.paths} runs, {ex.invalid_runs} invalid-name runs")
     for s in ex.samples[:5]:
         rep.samples.append({"rule": "C13.R2", "input": s})
+
+    rep.rule("C13.R5", "directed table, independent of the shape of the code: the function run (interpreter, concrete text) on every concatenation "
+                       "of up to five name tokens (an upper- and a lower-case letter, braces, backslash, comma, blank, a braced word; more in the "
+                       "thorough tier) raises InvalidNameError exactly for the names the reference tokeniser rejects (unbalanced braces in either "
+                       "order, too many commas, a trailing comma) and otherwise returns the reference's words, partitioned by BibTeX's rule")
+    dn = nameparts.directed_name_table(P, rep.tier)
+    rep.count("directed_names", dn["texts"])
+    rep.require_count("C13.R5", "directed names", dn["texts"], 5000)
+    if dn["undecided"] and not dn["bad"]:
+        raise AnalysisError(f"C13.R5: analyser cannot follow parse_single_name_into_parts on a concrete name: {dn['undecided'][0]}")
+    shown5 = set()
+    for t, got, want in dn["bad"]:
+        k5 = (got[0], want[0])
+        if k5 in shown5 or len(shown5) >= 4:
+            continue
+        shown5.add(k5)
+        rep.fail("C13.R5", f"directed:{t!r}", fi.loc, f"name {t!r}: the function gives {got!r}; the reference gives {want!r}", {"input": t})
+    if not dn["bad"]:
+        rep.ok("C13.R5", f"directed:{dn['texts']}-names", fi.loc)
 
     rep.rule("C13.R4", "partition table: for every sequence of word case classes (upper / lower / caseless) up to the bound in every "
                        "comma form, First/von/Last/Jr are BibTeX's: two comma-free words are First Last; von ends with the last "
